@@ -110,12 +110,12 @@ theorem AckCore.local_x {t t' : Tcb} {ty : Option Tcb} {ly : Bool} {hist hist' n
         · exact f2.one x e
         · cases hf : x.ctl.ack with
           | false => rfl
-          | true => exact absurd hst' (e.2.2 hf).2
+          | true => exact absurd hst' (e.2.2.1 hf).2
       · rcases l.q.rtx tr hx with ⟨t0, e, es⟩ | e
         · rw [← es]; exact f2.rtx t0 e
         · cases hf : tr.segment.hdr.ctl.ack with
           | false => rfl
-          | true => exact absurd hst' (e.2.2 hf).2
+          | true => exact absurd hst' (e.2.2.1 hf).2
     refine ⟨fun σ hσ => ?_, nq⟩
     rcases hh σ hσ with hn | ho
     · rcases hnew σ hn with e | ⟨tr, e, es⟩
